@@ -103,7 +103,17 @@ class Contract:
         return [self.tag]
 
 
-CONTRACTS = {'A': Contract(b'A'), 'B': Contract(b'B')}
+class LedgerContract(dict):
+    """a contract kept in a dict subclass: with no entries yet it is FALSY
+    (bool(obj) is False), and it is a registered contract all the same"""
+
+    tag = b'B'
+
+    def abi(self, args):
+        return [self.tag]
+
+
+CONTRACTS = {'A': Contract(b'A'), 'B': LedgerContract()}
 
 
 @runtime_checkable
